@@ -81,6 +81,13 @@ def run(cfg):
                                 held.discard(r[0])
                             elif e.get('name') == 'lock':
                                 held.add(r[0])
+                    # manual locking of the mutex member itself: the critical section is the same (that an exception
+                    # would leave it locked is MX-6, C08); tracked as a pseudo guard
+                    if e.get('ck') == 'member' and e.get('obj') is not None and e.get('name') in ('lock', 'unlock') and _is_mutex_member(f, e['obj']):
+                        if e['name'] == 'lock':
+                            held.add('mutex.lock()')
+                        else:
+                            held.discard('mutex.lock()')
                     if e.get('ck') == 'ctor' and LOCK_TYPES.search(e.get('cls') or '') and e.get('move') and e.get('args'):
                         r = f.moved_ref(e['args'][0]) or f.ref_of(e['args'][0])
                         if r and r[0] in lockvars and r[0] in held:
@@ -304,4 +311,20 @@ def mx4(cfg):
             res.find(f, esc[0][0].get('loc'), 'mutex_db::%s: the lock object is %s: code outside this function can unlock it while the operation on the wrapped tree is still running (a scan whose callback releases the mutex lets writers in between two visited entries: the scan sees a state that never existed)' % (f.short, esc[0][1]), key='MX-5:%s' % f.short, config=cfg.name)
     res.floor('member functions', 20)
     res.floor('functions with a guard', 15)
+    return res
+
+
+def mx6(cfg):
+    """MX-6 (for C08): the mutex is only ever taken through scope-bound guard objects"""
+    res = RuleResult('MX-6', 'no member function of mutex_db calls lock() / unlock() / try_lock() on the mutex member itself, and every lock object is a local (or the returned hand-over of get): ownership of the mutex exists only as lock_guard / unique_lock objects, whose destructors release it when an exception unwinds the operation - "no lock left held" after a failed insert / remove')
+    fns = [f for f in cfg.functions if f.cls.startswith('unodb::mutex_db<') and f.blocks and not f.d.get('lambda') and not (f.d.get('ctor') or f.d.get('dtor') or f.d.get('static'))]
+    for f in fns:
+        res.count('member functions')
+        res.functions.add(f.sig)
+        bad = [e for b, i, e in f.elements() if e.get('k') == 'call' and e.get('ck') == 'member' and e.get('name') in ('lock', 'unlock', 'try_lock') and e.get('obj') is not None and _is_mutex_member(f, e['obj']) and not is_assert_elem(e)]
+        ok = not bad
+        res.ob(ok, {'rule': 'MX-6', 'function': sh(f.sig)[:100], 'verdict': 'discharged' if ok else 'VIOLATION'})
+        if not ok:
+            res.find(f, bad[0].get('loc'), 'mutex_db::%s calls %s() on the mutex directly: an exception thrown by the wrapped operation (allocation failure, over-long key) would leave the mutex locked for ever' % (f.short, bad[0].get('name')), key='MX-6:%s' % f.short, config=cfg.name)
+    res.floor('member functions', 20)
     return res
